@@ -264,6 +264,15 @@ func ScanRepositoryUsingGraph(
 	}
 	progressMeter.Done()
 
+	// All of the requested objects have been read. Drain the
+	// iterator, which also waits for `git cat-file --batch` to exit
+	// and reports its failure, if any:
+	if _, ok, err := objectIter.Next(); err != nil {
+		return HistorySize{}, err
+	} else if ok {
+		return HistorySize{}, errors.New("more objects read than expected")
+	}
+
 	err = <-errChan
 	if err != nil {
 		return HistorySize{}, err
